@@ -296,9 +296,11 @@ theorem popInner_live (s : State) (mb win : Nat) (nb : Bool) (hl : Live s) (hmb 
           have hfs : s1.finSent = s.finSent := by rw [hs1]
           have hwo : s1.writeOffset = s.writeOffset := by rw [hs1]
           refine .newData f0 s1 hq hok (s.finishedWriting && s1.dataForWriting.isEmpty && s1.nextFrame.isNone && !s.finSent) rfl ?_ ?_ ?_
-          · rw [hfw, hfs, hwo]
+          · rw [hfw, hfs, hwo, hr]
+            simp only [Option.isNone_none, Bool.and_true]
             cases hc : (s.finishedWriting && s1.dataForWriting.isEmpty && s1.nextFrame.isNone && !s.finSent) <;> simp
-          · rw [hfw, hfs]
+          · rw [hfw, hfs, hr]
+            simp only [Option.isNone_none, Bool.and_true]
           · obtain ⟨_, hbuf⟩ := hx f0 rfl
             simp only at hbuf
             cases hn : s.nextFrame with
